@@ -7,7 +7,7 @@ FUNCTIONS = [
     'logica.py GetImportRoot semantics through import_root lists',
 ]
 ASSUMPTIONS = [
-    'part (a): import layouts written to a scratch directory (chain, diamond, same private predicate name in several files and in main, two files sharing a base name in different directories, alias of a predicate whose name is also imported from another file, two import roots, a predicate applied to its own result next to a same-named predicate in main); module bodies are seeded; the flattened single-file program is produced by the generator with its own unique names; z3 proves split == flattened on every database with <=2 rows per table',
+    'part (a): import layouts written to a scratch directory (chain, diamond, same private predicate name in several files and in main, the same private multi-body aggregation in two modules and main, two files sharing a base name in different directories, alias of a predicate whose name is also imported from another file, two import roots, a predicate applied to its own result next to a same-named predicate in main); module bodies are seeded; the flattened single-file program is produced by the generator with its own unique names; z3 proves split == flattened on every database with <=2 rows per table',
     'part (b): CrossHair over the real ParseFile prefix loop: every ordered pair of distinct import paths with <=2 (quick) / <=3 (thorough) parts over the alphabet {a, b, util}: no exception, non-empty and distinct prefixes; claimed only on "Confirmed over all paths"',
     'part (c): CrossHair over the real ParseFile: 15 harness functions (3 textual orders of three imports x 5 scenarios: plain, an undefined imported predicate, a redefinition in main, a circular import, a module redefining a predicate it imports after a used import), each with 5 symbolic bits (which imports are used, which carry an alias); the bits are branched on and the parse of the resulting concrete text runs natively (32 paths per function): rejected with ParsingException exactly when the documented rules say so; this is solver-driven enumeration of a finite configuration space, claimed only on "Confirmed over all paths"',
     'outside: the C++ parser; import graphs beyond the enumerated layouts',
